@@ -130,6 +130,8 @@ func (v *list_[V]) GetValues(first int, last int) Sequential[V] {
 // Expandable
 
 func (v *list_[V]) InsertValue(slot uint, value V) {
+	// Validate the slot.
+	v.validateSlot(slot)
 
 	// Create a new larger array.
 	var size = uint(v.GetSize() + 1)
@@ -154,6 +156,8 @@ func (v *list_[V]) InsertValue(slot uint, value V) {
 }
 
 func (v *list_[V]) InsertValues(slot uint, values Sequential[V]) {
+	// Validate the slot.
+	v.validateSlot(slot)
 
 	// Create a new larger array.
 	var size = uint(v.GetSize() + values.GetSize())
@@ -393,6 +397,18 @@ func (v *list_[V]) String() string {
 }
 
 // Private
+
+// This private instance method makes sure the specified slot is one of the slots
+// [0..size] that reside between the values in the list.
+func (v *list_[V]) validateSlot(slot uint) {
+	var size = uint(v.GetSize())
+	if slot > size {
+		panic(fmt.Sprintf(
+			"The specified slot is outside the allowed range [0..%v]: %v",
+			size,
+			slot))
+	}
+}
 
 // This private instance method normalizes the specified relative index.  The
 // following transformation is performed:
